@@ -382,13 +382,39 @@ def sharded_part(R, n):
             case0 = {"dataset": "sharded", "triple": list(triple), "data_encoding": enc, "index_encoding": idx_enc,
                      "legacy": legacy, "stale_legacy_pair": stale, "size": size, "url": spelling}
             site.reset()
-            res = run_impl(lambda: accessor.get_accessor_for_url(url))
             ib = open(os.path.join(ds, "info"), "rb").read()
+            res = run_impl(lambda: accessor.get_accessor_for_url(url))
             reqs.append(("dispatch", [b(url), [False, True, 9, False, False], [], [[ib, h12.parse_info_oracle(ib)]],
                                       tree, sc, []]))
             pend.append(("dispatch", case0, res if res[0] != "ok" else ["ok", type(res[1]).__name__, res[1].base_url],
                          list(site.log), origin, None))
             R.count(f"sharded:dispatch:{type(res[1]).__name__ if res[0] == 'ok' else res[0]}")
+            # the probing GET of info succeeds, the sharded accessor's own GET of info fails: an error, never
+            # a silent fallback to the plain reader
+            for beh in [("status", 503), "drop", "cut-body", ("status", 500), "bad-gzip", "cut-chunked",
+                        ("status", 404)][i % 2::2] + [("status", 503)][:i % 2]:
+                script = ["normal", beh]
+                site.reset(script)
+                res2 = run_impl(lambda: accessor.get_accessor_for_url(url))
+                if res2[0] == "Crash" and res2[1] not in ("ValueError", "TypeError", "AssertionError", "KeyError",
+                                                          "IndexError"):
+                    res2 = ["Crash", {"JSONDecodeError": "ValueError", "UnicodeDecodeError": "ValueError",
+                                      "AttributeError": "TypeError"}.get(res2[1], res2[1])]
+                cd = {**case0, "script": ["normal", str(beh)], "what": "second request of get_accessor_for_url fails"}
+                R.case(cd, nontrivial=True)
+                R.count(f"sharded:dispatch-2nd-fails:{beh if isinstance(beh, str) else beh[1]}:"
+                        f"{type(res2[1]).__name__ if res2[0] == 'ok' else res2[0]}")
+                reqs.append(("dispatch", [b(url), [False, True, 9, False, False], [], [[ib, h12.parse_info_oracle(ib)]],
+                                          tree, sc, wire_script(script)]))
+                pend.append(("dispatch", cd,
+                             res2 if res2[0] != "ok" else ["ok", type(res2[1]).__name__, res2[1].base_url],
+                             list(site.log), origin, None))
+                if res2[0] == "ok" and not isinstance(res2[1], ShardedHttpAccessor):
+                    R.violation("a failure of the sharded accessor's info request was swallowed: a sharded dataset was "
+                                "dispatched to the plain HTTP reader without any error", cd, {"impl": str(res2)[:200]})
+                elif res2[0] != "ok" and res2 not in (["AccessErr"], ["IOErr"]):
+                    R.violation("a failing info request in get_accessor_for_url surfaced as something else than a "
+                                "data-access / I/O error", cd, {"impl": res2})
             if res[0] != "ok" or not isinstance(res[1], ShardedHttpAccessor):
                 R.violation("sharded dataset not dispatched to the sharded HTTP reader", case0, {"impl": str(res)[:200]})
                 continue
@@ -452,6 +478,16 @@ def sharded_part(R, n):
                             pend.append(("hs", c2, h2, list(site.log), origin, enc))
                         # oracle: never data that differs from the local read; a failure that changes
                         # the outcome must surface as a data-access / I/O error
+                        # the failure is transient: the SAME accessor, the server healthy again, reads what the
+                        # fault-free fetch read (= the local read, checked above)
+                        site.reset()
+                        h3 = run_impl(lambda: acc2.fetch_chunk("1mm", tuple(co)))
+                        R.count(f"sharded:refetch:{h3[0] if h3[0] != 'Crash' else h3[1]}")
+                        if h3 != h:
+                            R.violation("after a failed sharded fetch the same accessor, the server healthy again, "
+                                        "reads something else than the fault-free fetch (state of the failed attempt "
+                                        "survives)", c2, {"first": h12._short(h2), "second_fetch": h12._short(h3),
+                                                          "fault_free": h12._short(h)})
                         if h2[0] == "ok" and h2 != loc:
                             R.violation("server misbehaviour turned into wrong data", c2, {"http": h12._short(h2)})
                         elif h2 != h and h2 not in (["IOErr"], ["AccessErr"]):
